@@ -184,8 +184,10 @@ impl<Front: SocketHandler> RelayProxyProtocol<Front> {
                 }
             };
 
+            // The buffered bytes (the header and whatever followed it in the
+            // same read) stay in `frontend_buffer`: `back_writable` forwards
+            // them verbatim and the pipe inherits the remainder.
             self.header_size = Some(read_sz);
-            self.frontend_buffer.consume(sz);
             return SessionResult::Continue;
         }
 
